@@ -176,11 +176,16 @@ func FmtRandom(rng *rand.Rand, id int) *FmtCase {
 		on := []string{"out", "res"}[i]
 		ext := ""
 		if rng.Intn(3) == 0 {
-			ext = "|.o" + fmt.Sprint(i)
+			// also extensions that contain dots themselves
+			ext = []string{"|.o" + fmt.Sprint(i), "|.txt.gz", "|.tar.gz", "|.f-a_b.q9", "|.o" + fmt.Sprint(i)}[rng.Intn(5)]
+		}
+		typ := "o"
+		if i == 0 && rng.Intn(6) == 0 {
+			typ = "os" // a streaming output: the command gets the path of the FIFO
 		}
 		if rng.Intn(3) > 0 {
-			// SetOut pattern
-			pat := "o_"
+			// SetOut pattern, also below absolute, parent-relative and nested directories
+			pat := []string{"o_", "o_", "o_", "/abs/out/o_", "../up/o_", "sub/dir/o_"}[rng.Intn(6)]
 			for port, path := range c.In {
 				pat += ph("i", port, chain(rng, path, 3)) + "."
 			}
@@ -197,7 +202,7 @@ func FmtRandom(rng *rand.Rand, id int) *FmtCase {
 			pat += on
 			c.Outs[on] = pat
 		}
-		toks = append(toks, ">"+"{o:"+on+ext+"}")
+		toks = append(toks, ">"+"{"+typ+":"+on+ext+"}")
 	}
 	if rng.Intn(5) == 0 {
 		c.Prepend = "srun -n 1"
